@@ -54,6 +54,12 @@ def specs(tier):
     out.append(dict(scenario=SCN, kwargs=kw, kind="safety", K=K, pred="tsa_any_bad", timeout=to, replay="tsa_replay"))
     out.append(dict(scenario=SCN, kwargs=kw, kind="deadlock", K=K, pred="someone_open", timeout=to, replay="tsa_replay"))
     out.append(dict(scenario=SCN, kwargs=kw, kind="adequacy", K=K, timeout=to))
+  # threads that carry the same name (legal; an active object's thread is named after its chart): the attribute must tell them apart anyway
+  for c in ([("aug", "assign")] if tier == "quick" else [("aug", "assign"), ("aug", "aug"), ("assign", "aug", "aug")]):
+    kw = dict(kinds=tuple(c), same_names=True)
+    K = 13 * len(c)
+    out.append(dict(scenario=SCN, kwargs=kw, kind="safety", K=K, pred="tsa_any_bad", timeout=to, replay="tsa_replay"))
+    out.append(dict(scenario=SCN, kwargs=kw, kind="deadlock", K=K, pred="someone_open", timeout=to, replay="tsa_replay"))
   return out
 
 
